@@ -943,6 +943,87 @@ def gener_targets():
     return out
 
 
+def siptw_targets():
+    """StochasticIPTW.fit: numerator under a marginal plan, the overwrite step of the conditional loop (and that the column
+    starts as NaN and the loop runs over zip(conditional, p) in order), denominator, weight, user-weight product, aggregate."""
+    IP = os.path.join(REPO, 'zepid/causal/ipw/IPTW.py')
+    fn = find_function(ast.parse(open(IP).read()), 'StochasticIPTW.fit')
+    out = []
+    A = 'df[self.treatment] == 1'
+
+    def arith(node, names):
+        u = ast.unparse(node)
+        if u in names:
+            return names[u]
+        if isinstance(node, ast.Constant) and isinstance(node.value, int) and not isinstance(node.value, bool):
+            return '(%d # 1)' % node.value
+        if isinstance(node, ast.BinOp) and type(node.op) in (ast.Add, ast.Sub, ast.Mult, ast.Div):
+            op = {ast.Add: '+', ast.Sub: '-', ast.Mult: '*', ast.Div: '/'}[type(node.op)]
+            return '(%s %s %s)' % (arith(node.left, names), op, arith(node.right, names))
+        if isinstance(node, ast.Call) and ast.unparse(node.func) == 'np.where' and len(node.args) == 3 and ast.unparse(node.args[0]) == A:
+            return '(if v_a then %s else %s)' % (arith(node.args[1], names), arith(node.args[2], names))
+        raise TranslateError('expression `%s` in StochasticIPTW.fit' % u[:70])
+
+    def assigns(stmts, target):
+        return [st for st in stmts if isinstance(st, ast.Assign) and ast.unparse(st.targets[0]) == target]
+
+    tops = [st for st in fn.body if isinstance(st, ast.If) and ast.unparse(st.test) == 'conditional is None']
+    if len(tops) != 1:
+        raise TranslateError('expected one `if conditional is None:` in StochasticIPTW.fit')
+    # every statement of fit after the argument checks must be one this translation accounts for
+    tail = fn.body[fn.body.index(tops[0]) + 1:]
+    want_tail = ["df['_denom_']", "df['_ipw_']", 'IF self.weights is not None', 'self.marginal_outcome']
+    got_tail = [('IF ' + ast.unparse(st.test)) if isinstance(st, ast.If) else ast.unparse(st.targets[0]) if isinstance(st, ast.Assign) else '?'
+                for st in tail]
+    if got_tail != want_tail:
+        raise TranslateError('StochasticIPTW.fit: statements after the numerator are %s' % got_tail)
+    pre = [ast.unparse(st.targets[0]) for st in fn.body[:fn.body.index(tops[0])] if isinstance(st, ast.Assign)]
+    if pre != ['p', 'df'] or ast.unparse(assigns(fn.body, 'df')[0].value) != 'self.df.copy()' \
+            or ast.unparse(assigns(fn.body, 'p')[0].value) != 'np.array(p)':
+        raise TranslateError('StochasticIPTW.fit: assignments before the numerator are %s' % pre)
+    # marginal plan
+    m = assigns(tops[0].body, "df['_numer_']")
+    if len(m) != 1 or len(tops[0].body) != 1:
+        raise TranslateError('StochasticIPTW.fit: marginal-plan branch')
+    out.append(RawTarget('siptw_numer_marginal', 'Definition siptw_numer_marginal_Q (v_a : bool) (v_p : Q) : Q :=\n  %s.'
+                         % arith(m[0].value, {'p': 'v_p'}), ['p'], ['numer']))
+    # conditional plan: check call; NaN start; in-order overwrite loop
+    ob = tops[0].orelse
+    if not (len(ob) == 3 and isinstance(ob[0], ast.Expr) and ast.unparse(ob[0].value).startswith('stochastic_check_conditional(')
+            and isinstance(ob[1], ast.Assign) and ast.unparse(ob[1]) == "df['_numer_'] = np.nan"
+            and isinstance(ob[2], ast.For) and ast.unparse(ob[2].target) in ('c, prop', '(c, prop)') and ast.unparse(ob[2].iter) == 'zip(conditional, p)'
+            and len(ob[2].body) == 1 and not ob[2].orelse):
+        raise TranslateError('StochasticIPTW.fit: conditional-plan branch has changed shape')
+    st = ob[2].body[0]
+    v = st.value
+    if not (isinstance(st, ast.Assign) and ast.unparse(st.targets[0]) == "df['_numer_']" and isinstance(v, ast.Call)
+            and ast.unparse(v.func) == 'np.where' and len(v.args) == 3 and ast.unparse(v.args[0]) == 'eval(c)'
+            and ast.unparse(v.args[2]) == "df['_numer_']"):
+        raise TranslateError('StochasticIPTW.fit: loop body `%s`' % ast.unparse(st)[:80])
+    out.append(RawTarget('siptw_numer_step', '(* one pass of `for c, prop in zip(conditional, p)`; the column starts as NaN (None) *)\n'
+                         'Definition siptw_numer_step_Q (v_a : bool) (cur : option Q) (cp : bool * Q) : option Q :=\n'
+                         '  if fst cp then Some %s else cur.\nDefinition siptw_numer_start_Q : option Q := None.'
+                         % arith(v.args[1], {'prop': '(snd cp)'}), ['c', 'prop'], ['numer']))
+    d = assigns(tail, "df['_denom_']")[0]
+    out.append(RawTarget('siptw_denom', 'Definition siptw_denom_Q (v_a : bool) (v_pd : Q) : Q :=\n  %s.'
+                         % arith(d.value, {'self._pdenom_': 'v_pd'}), ['pd'], ['denom']))
+    w = assigns(tail, "df['_ipw_']")[0]
+    out.append(RawTarget('siptw_ipw', 'Definition siptw_ipw_Q (v_numer v_denom : Q) : Q :=\n  %s.'
+                         % arith(w.value, {"df['_numer_']": 'v_numer', "df['_denom_']": 'v_denom'}), ['numer', 'denom'], ['ipw']))
+    wi = [x for x in tail if isinstance(x, ast.If)][0]
+    if len(wi.body) != 1 or wi.orelse or ast.unparse(wi.body[0].targets[0]) != "df['_ipw_']":
+        raise TranslateError('StochasticIPTW.fit: user-weight block')
+    out.append(RawTarget('siptw_ipw_w', 'Definition siptw_ipw_w_Q (v_ipw v_w : Q) : Q :=\n  %s.'
+                         % arith(wi.body[0].value, {"df['_ipw_']": 'v_ipw', 'df[self.weights]': 'v_w'}), ['ipw', 'w'], ['ipw']))
+    mo = assigns(tail, 'self.marginal_outcome')[0]
+    if ast.unparse(mo.value) != "np.average(df[self.outcome], weights=df['_ipw_'])":
+        raise TranslateError('StochasticIPTW.fit: marginal outcome is `%s`' % ast.unparse(mo.value))
+    out.append(RawTarget('siptw_marginal', '(* np.average(y, weights=w) over all rows; rows: (weight, outcome) *)\n'
+                         'Definition siptw_marginal_Q (rows : list (Q * Q)) : Q :=\n'
+                         '  Qsum (fun r => fst r * snd r) rows / Qsum (fun r => fst r) rows.', ['rows'], ['marginal']))
+    return out
+
+
 class RawTargetR(RawTarget):
     """ready-made Coq text over R"""
     def __init__(self, name, r_text):
@@ -968,6 +1049,7 @@ GROUPS = {
     'gate': gate_targets,
     'drci': drci_targets,
     'gener': gener_targets,
+    'siptw': siptw_targets,
 }
 
 
@@ -982,7 +1064,7 @@ def generate(groups=None):
         try:
             ts = fn()
             r = HEADER_R + '\n' + '\n\n'.join(t.coq() for t in ts) + '\n'
-            q = HEADER_Q + ('From Zepid Require Import Base.QSum Base.QAgg.\n' if g in ('pool', 'gfmarg') else '') + ('From Zepid Require Import Base.QSum Base.QAgg Base.Rows Model.Estimators.\n' if g == 'xfvar' else '') + ('From Zepid Require Import Model.Gate.\n' if g == 'gate' else '') + ('From Zepid Require Import Base.QSum Base.QAgg Model.Generalize.\n' if g == 'gener' else '') + '\n' + '\n\n'.join(t.coq_q() for t in ts) + '\n'
+            q = HEADER_Q + ('From Zepid Require Import Base.QSum Base.QAgg.\n' if g in ('pool', 'gfmarg', 'siptw') else '') + ('From Zepid Require Import Base.QSum Base.QAgg Base.Rows Model.Estimators.\n' if g == 'xfvar' else '') + ('From Zepid Require Import Model.Gate.\n' if g == 'gate' else '') + ('From Zepid Require Import Base.QSum Base.QAgg Model.Generalize.\n' if g == 'gener' else '') + '\n' + '\n\n'.join(t.coq_q() for t in ts) + '\n'
             side[g] = [t.sidecar() for t in ts]
             err = None
         except (TranslateError, SyntaxError, OSError) as e:
